@@ -159,7 +159,7 @@ def lean_audit(pid, prop_modules, all_modules):
 
 # files whose `time.Now()` is redirected to the package's verifNow() (virtual clock); the copy is
 # regenerated from the CURRENT source on every build, so the checked program is derived from /repo
-INSTRUMENT_CLOCK = ["container/lru/expirable.go"]
+INSTRUMENT_CLOCK = ["container/lru/expirable.go", "kvs/inmem/inmem.go", "kvs/redis/redis.go"]
 
 
 def instrument():
@@ -171,8 +171,10 @@ def instrument():
         if not os.path.exists(src):
             continue
         txt = open(src).read()
-        n = txt.count("time.Now()")
+        n = txt.count("time.Now()") + len(re.findall(r"time\.(Until|Since)\(", txt))
         txt = txt.replace("time.Now()", "verifNow()")
+        txt = re.sub(r"time\.Until\(([^()]*(?:\([^()]*\))?[^()]*)\)", r"(\1).Sub(verifNow())", txt)
+        txt = re.sub(r"time\.Since\(([^()]*(?:\([^()]*\))?[^()]*)\)", r"verifNow().Sub(\1)", txt)
         txt += "\n// verif: %d time.Now() call(s) redirected to verifNow()\nvar _ = time.Second\n" % n
         with open(os.path.join(d, rel[:-3].replace("/", "__") + ".go"), "w") as f:
             f.write(txt)
